@@ -99,6 +99,7 @@ type PathState struct {
 	Unwind   int
 	WantWit  bool
 	PermMaps bool
+	NoHashFork bool
 	hashLog  []hashRec
 	objCount int
 	clock    int
@@ -357,5 +358,45 @@ func SortedKeys(m map[string]bool) []string {
 		out = append(out, k)
 	}
 	sort.Strings(out)
+	return out
+}
+
+// decideNoFork resolves c preferring outcome prefer when both outcomes are feasible,
+// without enqueueing the alternative (a deliberate, stated under-approximation).
+func (fr *frame) decideNoFork(c *term.Term, prefer bool) bool {
+	if c.IsTrue() {
+		return true
+	}
+	if c.IsFalse() {
+		return false
+	}
+	ps := fr.i.ps
+	if ps.pos < len(ps.Prefix) {
+		d := ps.Prefix[ps.pos]
+		ps.pos++
+		ps.Decs = append(ps.Decs, d)
+		if d.Out == 1 {
+			ps.addPC(c)
+			return true
+		}
+		ps.addPC(term.Not(c))
+		return false
+	}
+	want := c
+	if !prefer {
+		want = term.Not(c)
+	}
+	out := prefer
+	if ps.check(want) == solver.Unsat {
+		out = !prefer
+	}
+	o := 0
+	if out {
+		o = 1
+		ps.addPC(c)
+	} else {
+		ps.addPC(term.Not(c))
+	}
+	ps.Decs = append(ps.Decs, Decision{Kind: 'b', Out: o})
 	return out
 }
